@@ -365,18 +365,29 @@ Definition sreq_ok (s : scase) (q : sreq) : bool :=
               && slates_ok (table_of regs) (sc_nf c) (sc_na c) (sc_cors c) q
     end.       (* Server.Use / WithChain tags are not the property's business: compared by [agrees] *)
 
-(* route binding, from what the user wrote: Start hands the router every route of the union of the prefix-extended
-   tables, in the order written, up to and including the first one that must be rejected; each call is accepted /
-   rejected as the list prescribes *)
-Definition call_ok (x : reg * reg_result) (o : string * string * reg_result) : bool :=
-  route_agrees (fst x) (fst o) && same_verdict (snd x) (snd o).
+(* route binding, from what the user wrote.  The property does not say in which ORDER Start registers the routes (the
+   order is compared with the model by [agrees]); it says which routes are registered and that a duplicate / bad method /
+   unrooted pattern is rejected.  Judged on the Handle calls observed on the user's own router: every call is for a route
+   of the union of the prefix-extended tables; when that list prescribes no rejection every call was accepted and every
+   route of the list was handed over; when it prescribes one, some call was rejected. *)
+Definition regs_have (regs : list reg) (o : string * string * reg_result) : bool :=
+  existsb (fun g => route_agrees g (fst o)) regs.
+Definition calls_have (calls : list (string * string * reg_result)) (g : reg) : bool :=
+  existsb (fun o => route_agrees g (fst o)) calls.
+
+Definition calls_ok (regs : list reg) (calls : list (string * string * reg_result)) : bool :=
+  forallb (regs_have regs) calls &&
+  match first_error (reg_results [] regs) with
+  | None => forallb (fun o => accepted (snd o)) calls && forallb (calls_have calls) regs
+  | Some _ => existsb (fun o => negb (accepted (snd o))) calls
+  end.
 
 Definition bound_ok (s : scase) (i : nat) (o : option (list (string * string * reg_result))) : bool :=
   match o with
   | None => true
   | Some calls =>
     if negb (server_in_scope s i) then true
-    else if has_start i (sevents s) then forallb2 call_ok (spec_calls [] (user_regs s i)) calls
+    else if has_start i (sevents s) then calls_ok (user_regs s i) calls
     else match calls with [] => true | _ => false end
   end.
 
